@@ -80,6 +80,12 @@ void *rs_malloc(size_t req_size)
 
 void *rs_calloc(size_t nmemb, size_t size)
 {
+	// the product must not wrap around: a tiny block would be returned for a huge request
+	if(unlikely(size && nmemb > SIZE_MAX / size)) {
+		errno = ENOMEM;
+		return NULL;
+	}
+
 	size_t tot = nmemb * size;
 	void *ret = rs_malloc(tot);
 
